@@ -677,12 +677,72 @@ Definition header_ok (w : list Z) (a : pabs) : bool :=
           | None => false
           end.
 
+(* the question section read off the octets: qdcount entries of (name, type, class) starting at
+   offset 12, names decoded by NameM.from_wire (compression pointers included) *)
+Definition u16_at (w : list Z) (pos : nat) : option Z :=
+  match skipn pos w with
+  | hi :: lo :: _ => Some (hi * 256 + lo)
+  | _ => None
+  end.
+
+Fixpoint wire_questions (w : list Z) (n : nat) (pos : nat) : option (list qent) :=
+  match n with
+  | O => Some []
+  | S n' =>
+      match from_wire w pos with
+      | Ok (nm, used) =>
+          match u16_at w (pos + used), u16_at w (pos + used + 2) with
+          | Some t, Some c =>
+              match wire_questions w n' (pos + used + 4) with
+              | Some r => Some ({| q_name := nm; q_class := c; q_type := t |} :: r)
+              | None => None
+              end
+          | _, _ => None
+          end
+      | _ => None
+      end
+  end.
+
+Definition wire_question_section (w : list Z) : option (list qent) :=
+  match u16_at w 4 with
+  | Some qd => wire_questions w (Z.to_nat qd) 12
+  | None => None
+  end.
+
+Fixpoint qents_same (a b : list qent) : bool :=
+  match a, b with
+  | [], [] => true
+  | x :: a', y :: b' =>
+      (fix eqn (m n : name) : bool :=
+         match m, n with
+         | [], [] => true
+         | l1 :: m', l2 :: n' => zlist_eqb l1 l2 && eqn m' n'
+         | _, _ => false
+         end) (q_name x) (q_name y)
+      && (q_class x =? q_class y) && (q_type x =? q_type y) && qents_same a' b'
+  | _, _ => false
+  end.
+
+(* a description of a completely parsed message must carry the question section that is on the
+   wire, octet for octet *)
+Definition question_ok (w : list Z) (a : pabs) : bool :=
+  match p_err a with
+  | Some _ => true
+  | None =>
+      if p_short a then true
+      else match wire_question_section w with
+           | Some qs => qents_same qs (m_question (p_msg a))
+           | None => false
+           end
+  end.
+
 (* descriptions that contradict their own wire string are not used (the case then shows up as
    a disagreement) *)
 Fixpoint lookup (t : list (list Z * pabs)) (w : list Z) : pabs :=
   match t with
   | [] => unknown_pabs
-  | (k, a) :: r => if zlist_eqb k w then (if header_ok w a then a else unknown_pabs) else lookup r w
+  | (k, a) :: r =>
+      if zlist_eqb k w then (if header_ok w a && question_ok w a then a else unknown_pabs) else lookup r w
   end.
 
 Definition dec_uopts (o : obs) : option uopts :=
